@@ -10,7 +10,8 @@ from fractions import Fraction
 
 RULE = ("idrange: every code point 0..0x10FFFF (exhaustive, ascending); idorder: every code point descending, every range "
         "boundary approached from the other side, random sequences of 2-6 lookups. numname/namepos: numeric-alphabet strings "
-        "(exhaustive to length 4 / 3) in name-only positions: accepted iff not of number form and not starting like a number. numfmt: all strings up to length L over the alphabet "
+        "(exhaustive to length 4 / 3) in the 19 name-only positions of a program (declaration, 恒为, method, callee, parameter, loop variables, 得到 after a call "
+        "and after a chain, type, program input, 新建 / 如何新建 / 抛出 / 拦截, method of 以…（…）): accepted iff not of number form and not starting like a number. numfmt: all strings up to length L over the alphabet "
         "{0,1,7,+,-,.,e,E,*,^,x} plus generated documented-form numbers and all their single-character edits; "
         "non-trivial = the recogniser consumed at least one character (not immediately a name). "
         "lex-alphabet: both ends of every range of the identifier table, the 3 code points outside each end, the continuation marks "
@@ -260,7 +261,7 @@ def run_name_side(ctx, extra):
     variable, 得到 name, type name, callee); Go = model = spec semantics on the program, and the accept/reject verdict of
     every position = the documented form (`spec:numname`, Spec/NumberForm.lean `classify`)."""
     from props import progs
-    from zngen import Program, Decl, Func, Iter, Ret, ExprS, Call, Class, Num, Arr, cps as zcps
+    from zngen import Program, Decl, Func, Iter, Ret, ExprS, Call, Class, Num, Arr, New, Throw, Bin, MCall, Str, cps as zcps
     rng = ctx.rng
     Lq = 4 if (ctx.quick() and not ctx.escalated) else 5
     strs = [''.join(chr(c) for c in t) for n in range(1, Lq + 1) for t in itertools.product(ALPHA, repeat=n)]
@@ -315,12 +316,29 @@ def run_name_side(ctx, extra):
             ('loopkv', Program([], [Iter(['键', t], Arr([Num('1'), Num('2')]), [ExprS(Call('显示', [Num('1')]))])] + seven)),
             ('yield', Program([], [Func('算', [], [Ret(Num('8'))]), ExprS(Call('算', [], yld=t))] + seven)),
             ('type', Program([], [Class(t, [('甲', Num('1'))], [])] + seven)),
+            # the other places where the evaluator wants a NAME (found by block coverage: none of them was ever given a numeral):
+            # a program input, the type after 新建 / 如何新建 / 抛出 / 拦截 (looked at when an exception reaches the handler), the method
+            # of 以…（…）, 得到 after such a chain, the first of two loop variables; an accepted spelling there is an unknown name
+            # (error 42), an unknown method (46), a handler that matches nothing (the fault 90 goes on) …
+            ('input', Program([t], seven)),
+            ('new', Program([], [Ret(New(t, []))])),
+            ('ctor', Program([], [Func(t, [], [Ret(Num('7'))], ctor=True)] + seven)),
+            ('throw', Program([], [Throw(t, [Str('话')])] + seven)),
+            # (a fault that leaves a method is an exception without code: the program's own handler tells "matched nothing" — 9 — from
+            # the uncatchable "no name")
+            ('catch', Program([], [Func('算', [], [Ret(Bin('/', Num('1'), Num('0')))], [(t, [Ret(Num('8'))])]), Ret(Call('算', []))],
+                              [('异常', [Ret(Num('9'))])])),
+            ('mcall', Program([], [Ret(MCall(Num('5'), [(t, [Num('1')])]))])),
+            ('myield', Program([], [ExprS(MCall(Num('5'), [('加', [Num('1')])], yld=t))] + seven)),
+            ('loopkey', Program([], [Iter([t, '值'], Arr([Num('1'), Num('2')]), [ExprS(Call('显示', [Num('1')]))])] + seven)),
         ]
     plist, meta = [], []
     for t in spell:
         ps = programs(t)
         if len(t) > 2 and t not in signed and not (len(t) == 3 and t[0] in '+-'):
             ps = rng.sample(ps, 2)
+        elif len(t) == 2:
+            ps = rng.sample(ps, 13)     # (19 places since the eight above were added: two-character spellings visit 13 of them each)
         for pos, p in ps:
             plist.append((p, {}))
             meta.append((t, pos))
